@@ -15,6 +15,14 @@ NA = {
 "C19":"Differential equality of two loaders on one text: pure.",
 }
 CHECKS = {
+"C05": dict(engine="E1-token-channel", design="4 (C05), 3.1, 3.2",
+  technique="deterministic simulation with fault injection on the parser-lexer token channel and on stored text: seeded token-level fault plans (drop/dup/swap/replace/EOF/torn token) per generated label, per-label sweeps of EOF and deletion at every token, executed through the real lexer and through a SimLexer interposer on the public lexer_fn seam; oracle = independent token-kind recogniser",
+  text="Seeded search over (label, layout, configuration, fault plan) with per-label exhaustive sweeps of single-token EOF/deletion; every damaged token sequence is judged by a recogniser that never calls pvl: ill-formed -> the load must raise LexerError/ParseError, well-formed -> a returned module must equal the denoted tree. Exploration: a clean batch is evidence over the ~150k (quick) loads it made.",
+  note="Trusted: sim/refparse.py as the statement of well-formedness (it abstains where the specifications do not decide), the core vocabulary's expected values (sim/gen.py), white-space-separated re-rendering of damaged token lists."),
+"C06": dict(engine="E1-token-channel", design="4 (C06), 2.4",
+  technique="deterministic simulation with fault injection: truncation (EOF) at character offsets, character-level corruption from a PVL-significant alphabet, token-channel faults and channel EOF at every token via SimLexer, value loss, garbage after END, on generated and tests/data labels; bounded liveness decided by a deterministic line-event budget (sys.monitoring) and a channel re-delivery bound",
+  text="Seeded search over damaged labels in the five parser configurations; invariant on every load: it ends within 4000 line events per input character and 5000 re-deliveries in a module, LexerError or ParseError. Exploration (~146k loads per quick run); hangs are decided by counting, so a stall replays exactly.",
+  note="Trusted: the step budget as the definition of 'does not terminate' (40x the observed cost); CPython's sys.monitoring LINE events."),
 "C10": dict(engine="E3-history", design="5 (C10), 3.3",
   technique="deterministic simulation: seeded operation histories with failing operations, stepped against a list-of-pairs reference model after every step; ddmin-shrunk explicit replay files",
   text="Seeded search over operation histories (60k quick / 2M thorough histories of up to 40 operations incl. failing calls) on all four container classes; every accessor of every live container is compared with an independent list-of-pairs model after every operation. Evidence, not proof: a clean batch covers the histories it ran.",
